@@ -8,12 +8,13 @@ CONSTANTS
  RetryLimit = 3
  Schemes = {"reg", "ocidir"}
  Vias = {"reader"}
- Withs = {TRUE, FALSE}
+ Withs = {TRUE}
  Chunks = {1, 6}
  LyingSizes = TRUE
  InlineData = FALSE
+ Conc = 64
 INIT Init
 NEXT Next
 VIEW View
-INVARIANTS TypeOK PCleanOk HashIsGot CountIsGot Bounded EofVerified EofSized
+INVARIANTS TypeOK PCleanOk HashIsGot CountIsGot Bounded EofVerified EofSized NeverSelfBlocked NoLeftover
 CHECK_DEADLOCK FALSE
